@@ -145,3 +145,49 @@ if __name__ == "__main__":
         c[(a["cls"], a["sig"])] += 1
     for k, v in c.most_common():
         print(v, k)
+
+
+# ---- valgrind memcheck -------------------------------------------------------------------------------------------
+import re as _re
+
+_MC_HEAD = _re.compile(r"^==\d+== (Invalid (?:read|write) of size \d+|Conditional jump or move depends on uninitialised value\(s\)|"
+                       r"Use of uninitialised value of size \d+|Syscall param .* (?:uninitialised|unaddressable) byte\(s\)|"
+                       r"Invalid free\(\) / delete / delete\[\] / realloc\(\)|Mismatched free\(\) / delete / delete \[\]|"
+                       r"Source and destination overlap in .*|Jump to the invalid address .*|Process terminating with .*)")
+
+
+def split_memcheck(err):
+    """Split valgrind stderr into report blocks (one per error head line)."""
+    blocks, cur = [], None
+    for line in (err or "").splitlines():
+        if _MC_HEAD.match(line):
+            if cur:
+                blocks.append("\n".join(cur))
+            cur = [line]
+        elif cur is not None:
+            if line.startswith("==") and line.strip().endswith("=="):
+                blocks.append("\n".join(cur))
+                cur = None
+            elif line.startswith("=="):
+                cur.append(line)
+            else:
+                pass
+    if cur:
+        blocks.append("\n".join(cur))
+    return blocks
+
+
+def analyse_memcheck(block):
+    head = _MC_HEAD.match(block.splitlines()[0]).group(1)
+    kind = _re.sub(r"of size \d+", "", head).strip()
+    frames = _re.findall(r"(?:at|by) 0x[0-9A-F]+: (.+?) \((?:in )?([^)]*)\)", block)
+    first_rzmq = next((f for f, _ in frames if "rzmq::" in f), None)
+    first_vh = next((f for f, _ in frames if f.startswith("vh::") or _re.match(r"c\d\d::", f)), None)
+    if first_rzmq:
+        cls, where = "rzmq", first_rzmq
+    elif first_vh:
+        cls, where = "harness", first_vh
+    else:
+        cls, where = "third_party_internal", (frames[0][0] if frames else "no-frame")
+    where = _re.sub(r"::h[0-9a-f]{16}$", "", where)[:120]
+    return dict(cls=cls, sig="sanitizer|memcheck|%s|%s" % (kind[:60], where), head=head, text=block)
